@@ -137,11 +137,13 @@ func (ab *AccessBarrier) doCleanup() {
 	for iter.SeekFirst(); iter.Valid(); iter.Next() {
 		node := iter.GetNode()
 		bs := (*BarrierSession)(node.Item())
+		verifPoint(VpCleanupLoop, unsafe.Pointer(bs))
 		if bs.seqno != ab.freeSeqno+1 {
 			return
 		}
 
 		ab.freeSeqno++
+		verifPoint(VpCleanupBeforeDestruct, unsafe.Pointer(bs))
 		ab.callb(bs.objectRef)
 		ab.freeq.DeleteNode(node, CompareBS, buf2, &ab.freeq.Stats)
 		ab.numFreed++
@@ -153,7 +155,9 @@ func (ab *AccessBarrier) Acquire() *BarrierSession {
 	if ab.active {
 	retry:
 		bs := (*BarrierSession)(atomic.LoadPointer(&ab.session))
+		verifPoint(VpAcqLoaded, unsafe.Pointer(bs))
 		liveCount := atomic.AddInt32(bs.liveCount, 1)
+		verifPoint(VpAcqIncremented, unsafe.Pointer(bs))
 		if liveCount > barrierFlushOffset {
 			ab.Release(bs)
 			goto retry
@@ -168,6 +172,7 @@ func (ab *AccessBarrier) Acquire() *BarrierSession {
 // Release marks leaving of an accessor in the skiplist
 func (ab *AccessBarrier) Release(bs *BarrierSession) {
 	if ab.active {
+		verifPoint(VpRelBeforeDec, unsafe.Pointer(bs))
 		liveCount := atomic.AddInt32(bs.liveCount, -1)
 		if liveCount == barrierFlushOffset {
 			buf := ab.freeq.MakeBuf()
@@ -176,12 +181,16 @@ func (ab *AccessBarrier) Release(bs *BarrierSession) {
 			// Accessors which entered a closed barrier session steps down automatically
 			// But, they may try to close an already closed session.
 			if atomic.AddInt32(&bs.closed, 1) == 1 {
+				verifPoint(VpRelLatched, unsafe.Pointer(bs))
 				if !ab.freeq.Insert(unsafe.Pointer(bs), CompareBS, buf, &ab.freeq.Stats) {
 					panic("unable to insert barrier session into free list")
 				}
+				verifPoint(VpRelEnqueued, unsafe.Pointer(bs))
 				if atomic.CompareAndSwapInt32(&ab.isDestructorRunning, 0, 1) {
 					ab.doCleanup()
+					verifPoint(VpRelCleanupDone, unsafe.Pointer(bs))
 					atomic.CompareAndSwapInt32(&ab.isDestructorRunning, 1, 0)
+					verifPoint(VpRelUnlocked, unsafe.Pointer(bs))
 				}
 			}
 		} else if liveCount < 0 || liveCount == barrierFlushOffset-1 {
@@ -194,19 +203,24 @@ func (ab *AccessBarrier) Release(bs *BarrierSession) {
 // The caller should provide the destructor pointer for the new session.
 func (ab *AccessBarrier) FlushSession(ref unsafe.Pointer) {
 	if ab.active {
+		verifPoint(VpFlushBeforeLock, ref)
 		ab.Lock()
 		defer ab.Unlock()
+		verifPoint(VpFlushLocked, ref)
 
 		bsPtr := atomic.LoadPointer(&ab.session)
 		newBsPtr := unsafe.Pointer(newBarrierSession())
 		atomic.CompareAndSwapPointer(&ab.session, bsPtr, newBsPtr)
 		bs := (*BarrierSession)(bsPtr)
+		verifPoint(VpFlushSwapped, bsPtr)
 		bs.objectRef = ref
 		ab.activeSeqno++
 		bs.seqno = ab.activeSeqno
 		ab.numAllocated++
 
+		verifPoint(VpFlushBeforeOffset, bsPtr)
 		atomic.AddInt32(bs.liveCount, barrierFlushOffset+1)
+		verifPoint(VpFlushBeforeRelease, bsPtr)
 		ab.Release(bs)
 	}
 }
